@@ -29,7 +29,7 @@ type TokSpec struct {
 	// sequences / multi-host providers (all optional: the zero values are the single exchange on a static-issuer provider)
 	Born     int `json:"born,omitempty"`      // index of the exchange right before which the token is minted (0 = at the start; never later than its own exchange)
 	MintHost int `json:"mint_host,omitempty"` // host of the provider (0 | 1) the token was obtained on (Hosts only)
-	Replay   int `json:"replay,omitempty"`    // k > 0: the very token string presented as SUBJECT of exchange k-1 is presented again (the other fields but Declared repeat that token's description)
+	Replay   int `json:"replay,omitempty"`    // k > 0: the very token string presented as SUBJECT of exchange k-1 is presented again (the other fields but Declared repeat that token's description); an ACTOR may also name its own exchange: one string in both slots of a request
 }
 
 // Step is one further exchange on the same long-lived provider.
@@ -59,6 +59,10 @@ type Case struct {
 	Resource   []string      `json:"resource,omitempty"`
 	Policy     vkit.TEPolicy `json:"policy"`
 	Extras     bool          `json:"extras,omitempty"` // storage also implements TokenExchangeTokensVerifierStorage
+	// ActPolicy: which `act` claim the storage publishes in the tokens of an exchange (decideAct): "" {sub: actor} | rename | nested | extra | none | always
+	ActPolicy string `json:"act_policy,omitempty"`
+	// VouchRole: the role in which the storage's verifier vouches for third-party tokens: "" both | subject-only | actor-only
+	VouchRole string `json:"vouch_role,omitempty"`
 	// Shape (label only): single | hosts | seq | hosts-seq
 	Shape string `json:"shape,omitempty"`
 	// Hosts: the provider derives its issuer from the request's Host (op.IssuerFromHost): two issuers, one storage, one key set
@@ -243,12 +247,23 @@ func genCase(t *rapid.T) Case {
 			st.Host = rapid.IntRange(0, 1).Draw(t, l+"host")
 		}
 		tok := func(role string) TokSpec {
-			if k := rapid.IntRange(-2*i, i).Draw(t, l+role+"replay"); k > 0 {
+			hi := i
+			if role == "a." {
+				hi = i + 1 // an actor may also present the subject token of its own exchange
+			}
+			if k := rapid.IntRange(-2*i, hi).Draw(t, l+role+"replay"); k > 0 {
 				// the subject token of exchange k-1 once more
-				ts := c.steps()[k-1].Subject
+				ts := st.Subject
+				if k <= i {
+					ts = c.steps()[k-1].Subject
+				}
 				ts.Replay = k
 				if ts.Born >= k {
 					ts.Born = k - 1
+				}
+				if rapid.IntRange(0, 9).Draw(t, l+role+"redecl") < 4 {
+					// the same string under another declaration
+					ts.Declared = rapid.SampledFrom(allDeclared).Draw(t, l+role+"decl")
 				}
 				return ts
 			}
@@ -295,8 +310,29 @@ func genOne(t *rapid.T) Case {
 	c.Policy.VerifyThird = rapid.Bool().Draw(t, "verifythird")
 	c.Policy.NoLivenessCheck = rapid.IntRange(0, 9).Draw(t, "nolive") >= 8
 	c.Extras = rapid.Bool().Draw(t, "extras")
+	c.ActPolicy = rapid.SampledFrom(append([]string{"", ""}, actPolicies...)).Draw(t, "actpolicy")
 	thirdOK := c.Policy.VerifyThird && c.Extras
 	withActor := rapid.IntRange(0, 9).Draw(t, "actor") < 4
+	// sameActor: the actor token is the very string presented as subject token. how: "good" = declared as what the token is,
+	// "baddecl" = declared as something else, "free" = as what it is / as the subject declares it / anything
+	sameActor := func(how string) *TokSpec {
+		a := c.Subject
+		a.Replay = 1
+		match := matchingType(a.Kind)
+		if match == "" {
+			match = c.Subject.Declared
+		}
+		switch how {
+		case "good":
+			a.Declared = match
+		case "baddecl":
+			a.Declared = rapid.SampledFrom(allDeclared).Filter(func(d string) bool { return d != match }).Draw(t, "a.samedecl")
+		default:
+			a.Declared = rapid.SampledFrom(append([]string{match, c.Subject.Declared}, allDeclared...)).Draw(t, "a.samedecl")
+		}
+		return &a
+	}
+	same := withActor && rapid.IntRange(0, 9).Draw(t, "sameactor") < 2
 	c.NoRefresh = rapid.IntRange(0, 9).Draw(t, "norefresh") >= 8
 
 	if c.Mode == "free" {
@@ -309,6 +345,12 @@ func genOne(t *rapid.T) Case {
 		if withActor {
 			a := genTok(t, "a.", "free", thirdOK)
 			c.Actor = &a
+		}
+		if same {
+			c.Actor = sameActor("free")
+		}
+		if thirdOK && rapid.IntRange(0, 9).Draw(t, "vouchrolefree") < 3 {
+			c.VouchRole = rapid.SampledFrom(vouchRoles).Draw(t, "vouchrole")
 		}
 		c.Requested = rapid.SampledFrom(append(append([]string{}, okRequested...), badRequest...)).Draw(t, "requested")
 		c.Policy.Veto = rapid.IntRange(0, 9).Draw(t, "veto") == 9
@@ -323,15 +365,18 @@ func genOne(t *rapid.T) Case {
 	}
 	c.Requested = rapid.SampledFrom(okRequested).Draw(t, "requested")
 	if c.Mode == "eligible" {
+		if same {
+			c.Actor = sameActor("good")
+		}
 		return c
 	}
 	// break exactly one premise
 	breaks := []string{"subject-dead", "subject-decl", "subject-garbage", "cred", "veto", "requested", "subject-dead", "subject-decl"}
 	if c.Actor != nil {
-		breaks = append(breaks, "actor-dead", "actor-decl", "actor-garbage", "actor-dead", "actor-decl")
+		breaks = append(breaks, "actor-dead", "actor-decl", "actor-garbage", "actor-dead", "actor-decl", "actor-same-decl")
 	}
 	if thirdOK {
-		breaks = append(breaks, "third-unvouched")
+		breaks = append(breaks, "third-unvouched", "third-wrong-role")
 	}
 	c.Break = rapid.SampledFrom(breaks).Draw(t, "break")
 	switch c.Break {
@@ -350,6 +395,25 @@ func genOne(t *rapid.T) Case {
 	case "actor-garbage":
 		a := genTok(t, "ab.", "garbage", false)
 		c.Actor = &a
+	case "actor-same-decl":
+		// the subject token once more as actor token, declared as something it is not
+		c.Actor = sameActor("baddecl")
+	case "third-wrong-role":
+		// a third-party token in the role the storage's verifier does not vouch in (the same string in the other role is fine)
+		tk := TokSpec{Kind: "third", State: "live", Owner: "other", User: rapid.SampledFrom(vkit.AllUserIDs).Draw(t, "tuser"), Declared: rapid.SampledFrom([]string{"access", "jwt", "id", "refresh"}).Draw(t, "tdecl")}
+		if rapid.Bool().Draw(t, "onactor") {
+			c.VouchRole = "subject-only"
+			if rapid.Bool().Draw(t, "bothslots") {
+				c.Subject = tk
+			}
+			c.Actor = &tk
+		} else {
+			c.VouchRole = "actor-only"
+			if c.Actor != nil && rapid.Bool().Draw(t, "bothslots") {
+				c.Actor = &tk
+			}
+			c.Subject = tk
+		}
 	case "cred":
 		c.Cred = rapid.SampledFrom(badCreds).Draw(t, "cred")
 	case "veto":
@@ -370,6 +434,10 @@ func genOne(t *rapid.T) Case {
 			c.Subject = tk
 		}
 	}
+	if same && !strings.HasPrefix(c.Break, "actor-") && !strings.HasPrefix(c.Break, "third-") {
+		// (whatever became of the subject token: the same string, declared as what it is)
+		c.Actor = sameActor("good")
+	}
 	return c
 }
 
@@ -389,7 +457,21 @@ type world struct {
 	foreign *vkit.Agent // lazily built second provider (other issuer, other keys)
 	// actorUnknown: the actor token is grey, so the actor the issued token must carry is not decidable
 	actorUnknown bool
+	// expAct: the `act` claim the storage policy decided for the exchange under way (nil = none)
+	expAct map[string]any
 	fClient      *vkit.ClientSpec
+}
+
+// plus: the parts of the storage's token-exchange policy that live in this package (see helpers_test.go).
+func (w *world) plus() tePlus {
+	tp := tePlus{Act: w.c.ActPolicy, VouchRole: w.c.VouchRole}
+	if !contains(actPolicies, tp.Act) {
+		tp.Act = ""
+	}
+	if !contains(vouchRoles, tp.VouchRole) {
+		tp.VouchRole = ""
+	}
+	return tp
 }
 
 func algOfKey(name string) string {
@@ -422,7 +504,7 @@ func (w *world) foreignAgent() *vkit.Agent {
 			fst.CreateAuthRequest(context.Background(), &oidc.AuthRequest{ClientID: "client-b"}, "")
 		}
 		fst.Journal = nil
-		w.foreign = vkit.NewAgent(buildSUT("provider", foreignIssuer, 0x5a, fst, false, false))
+		w.foreign = vkit.NewAgent(buildSUT("provider", foreignIssuer, 0x5a, fst, false, false, tePlus{}))
 	}
 	return w.foreign
 }
@@ -687,9 +769,10 @@ func pick(m *minted, kind string) string {
 
 // validity of a presented token per the statement: live token of the declared supported type.
 // +1 valid, -1 invalid, 0 grey. reason names the class (used in fingerprints / labels).
-func (w *world) validity(s TokSpec, tt tokenTruth) (int, string) {
+func (w *world) validity(s TokSpec, tt tokenTruth, role string) (int, string) {
+	vouched := w.c.Extras && w.c.Policy.VerifyThird && (w.plus().VouchRole == "" || w.plus().VouchRole == role+"-only")
 	if s.Declared == "" {
-		if s.Kind == "third" && w.c.Extras && w.c.Policy.VerifyThird {
+		if s.Kind == "third" && vouched {
 			return -1, "type-not-declared:storage-vouched-token"
 		}
 		return -1, "type-not-declared:" + s.Kind
@@ -704,8 +787,11 @@ func (w *world) validity(s TokSpec, tt tokenTruth) (int, string) {
 		}
 		return -1, "garbage"
 	case "third":
-		if w.c.Extras && w.c.Policy.VerifyThird {
+		if vouched {
 			return 1, "third-vouched-by-storage"
+		}
+		if w.c.Extras && w.c.Policy.VerifyThird {
+			return -1, "third-not-vouched-as-" + role
 		}
 		return -1, "third-not-vouched"
 	}
@@ -833,7 +919,7 @@ func run(c Case) (res *vkit.Result) {
 	w.clB = webClient("client-b", "secret-b")
 	clI := webClient("client-i", "secret-i")
 	w.st = vkit.NewStore([]*vkit.ClientSpec{w.clA, w.clB, clI}, w.sk, vkit.StorePolicy{TE: c.Policy})
-	sut := buildSUT(c.Router, issuer, 0, w.st, c.Extras, c.Hosts)
+	sut := buildSUT(c.Router, issuer, 0, w.st, c.Extras, c.Hosts, w.plus())
 	w.ags[0], w.ags[1] = vkit.NewAgent(sut), vkit.NewAgent(sut)
 	if c.Hosts {
 		w.ags[1].Host = otherHost
@@ -855,7 +941,7 @@ func run(c Case) (res *vkit.Result) {
 	replayed := func(k slot) slot {
 		for n := 0; n < len(steps); n++ {
 			r := spec(k).Replay
-			if r <= 0 || r > k.step {
+			if r <= 0 || r > k.step+k.role { // (an actor may name the subject of its own exchange)
 				break
 			}
 			k = slot{r - 1, 0}
@@ -871,6 +957,22 @@ func run(c Case) (res *vkit.Result) {
 			b = k.step
 		}
 		return b
+	}
+	// a slot that presents the token of another slot describes that token (only its declaration is its own)
+	for i := range steps {
+		for role := 0; role < 2; role++ {
+			k := slot{i, role}
+			if spec(k) == nil || replayed(k) == k {
+				continue
+			}
+			ts := *spec(replayed(k))
+			ts.Declared, ts.Replay = spec(k).Declared, spec(k).Replay
+			if role == 1 {
+				steps[i].Actor = &ts
+			} else {
+				steps[i].Subject = ts
+			}
+		}
 	}
 	prepared := map[slot]tokenTruth{}
 	var outs []stepOut
@@ -933,10 +1035,10 @@ func (w *world) exchange(res *vkit.Result, idx int, st Step, subj, act tokenTrut
 	w.clA.GrantTypes = grants
 
 	// --- model
-	sv, sWhy := w.validity(c.Subject, subj)
+	sv, sWhy := w.validity(c.Subject, subj, "subject")
 	av, aWhy := 1, "absent"
 	if c.Actor != nil {
-		av, aWhy = w.validity(*c.Actor, act)
+		av, aWhy = w.validity(*c.Actor, act, "actor")
 	}
 	cred, authV, authWhy := w.credential()
 	// who decides the type of the issued token: the client (requested_token_type), else the storage policy's default,
@@ -1019,6 +1121,7 @@ func (w *world) exchange(res *vkit.Result, idx int, st Step, subj, act tokenTrut
 				res.Label("success-shape-only")
 			default:
 				w.actorUnknown = av == 0
+				w.expAct = decideAct(w.plus().Act, expActor)
 				outcome = "success:" + w.judgeSuccess(res, resp, effective, expSub, expActor, keepScopes(c.Scopes, c.Policy.DropScopes), before)
 			}
 		}
@@ -1046,6 +1149,18 @@ func (w *world) exchange(res *vkit.Result, idx int, st Step, subj, act tokenTrut
 		res.Label("actor:" + validityClass(av, aWhy, false))
 	} else {
 		res.Label("actor:absent")
+	}
+	sameString := c.Actor != nil && act.Token == subj.Token
+	if sameString {
+		// one string in both slots: how the two declarations relate
+		rel := "declared-differently"
+		switch {
+		case c.Actor.Declared == "":
+			rel = "actor-type-absent"
+		case c.Actor.Declared == c.Subject.Declared:
+			rel = "declared-alike"
+		}
+		res.Label("actor:same-string-as-subject", "same-string:"+rel+"/"+map[bool]string{true: "must-reject", false: "may-succeed"}[mustReject]+"/"+strings.SplitN(outcome, ":", 2)[0])
 	}
 	switch {
 	case mustReject:
@@ -1087,8 +1202,14 @@ func (w *world) exchange(res *vkit.Result, idx int, st Step, subj, act tokenTrut
 	if c.Actor != nil {
 		actorKey = c.Actor.Kind + "/" + c.Actor.State + "/" + c.Actor.Declared
 	}
+	if sameString {
+		actorKey += "/same"
+	}
 	out.Key = fmt.Sprintf("%s|%s|%s|%s/%s/%s|%s|req=%s|def=%s|jwt=%v|imp=%v|veto=%v|third=%v/%v|%s", c.Router, c.ClientAuth, c.Cred,
 		c.Subject.Kind, c.Subject.State, c.Subject.Declared, actorKey, c.Requested, c.Policy.DefaultType, c.IssueJWT, c.Policy.Impersonate != "", c.Policy.Veto, c.Policy.VerifyThird, c.Extras, strings.SplitN(outcome, ":", 2)[0])
+	if tp := w.plus(); tp != (tePlus{}) {
+		out.Key += "|act=" + tp.Act + "|vouch=" + tp.VouchRole
+	}
 	if idx > 0 || c.Hosts {
 		out.Key += fmt.Sprintf("|host=%d|keyop=%s|s=%s%s|a=%s%s", w.hostIdx(st.Host), st.KeyOp, subj.Unverifiable, map[bool]string{true: "/replay"}[st.Subject.Replay > 0], act.Unverifiable, map[bool]string{true: "/replay"}[st.Actor != nil && st.Actor.Replay > 0])
 	}
@@ -1121,6 +1242,10 @@ func (w *world) evidence(res *vkit.Result, steps []Step, outs []stepOut) {
 	}
 	if c.Policy.NoLivenessCheck {
 		res.Label("policy:no-liveness-check")
+	}
+	res.Label("policy:act=" + map[bool]string{true: "actor-token-subject", false: w.plus().Act}[w.plus().Act == ""])
+	if w.plus().VouchRole != "" {
+		res.Label("policy:verifier-vouches-" + w.plus().VouchRole)
 	}
 	if c.Hosts {
 		res.Label("provider:issuer-from-host")
@@ -1281,11 +1406,12 @@ func (w *world) judgeSuccess(res *vkit.Result, resp *vkit.Resp, effective, expSu
 			if s := claimStr(v.Claims, "sub"); s != expSub {
 				res.Fail("C15:issued-token-wrong-subject:"+what, "the %s (JWT) has sub=%q, the policy decided %q", what, s, expSub)
 			}
-			if wantActor && !w.actorUnknown {
-				got, has := actSub(v.Claims)
-				if expActor == "" && has || expActor != "" && got != expActor {
-					res.Fail("C15:issued-token-wrong-actor:"+what, "the %s (JWT) has act=%q (present=%v), the policy decided actor %q", what, got, has, expActor)
+			if wantActor && !(w.actorUnknown && actDependsOnActor(w.plus().Act)) {
+				// the act claim of the token is exactly what the storage supplied for it (absent when it supplied none)
+				if !sameAct(v.Claims, w.expAct) {
+					res.Fail("C15:issued-token-wrong-actor:"+what, "the %s (JWT) has act=%s, the storage policy decided act=%s (actor token subject %q, act policy %q)", what, jsonOf(v.Claims["act"]), jsonOf(w.expAct), expActor, w.plus().Act)
 				}
+				res.Label("act-claim-compared:" + actShape(w.expAct, expActor))
 			}
 		} else {
 			if len(candidates) == 1 {
@@ -1406,9 +1532,11 @@ func (w *world) judgeSuccess(res *vkit.Result, resp *vkit.Resp, effective, expSu
 		if s := claimStr(v.Claims, "sub"); s != expSub {
 			res.Fail("C15:issued-token-wrong-subject:id token", "the ID token has sub=%q, the policy decided %q", s, expSub)
 		}
-		got, has := actSub(v.Claims)
-		if !w.actorUnknown && (expActor == "" && has || expActor != "" && got != expActor) {
-			res.Fail("C15:issued-token-wrong-actor:id token", "the ID token has act=%q (present=%v), the policy decided actor %q", got, has, expActor)
+		if !(w.actorUnknown && actDependsOnActor(w.plus().Act)) {
+			if !sameAct(v.Claims, w.expAct) {
+				res.Fail("C15:issued-token-wrong-actor:id token", "the ID token has act=%s, the storage policy decided act=%s (actor token subject %q, act policy %q)", jsonOf(v.Claims["act"]), jsonOf(w.expAct), expActor, w.plus().Act)
+			}
+			res.Label("act-claim-compared:" + actShape(w.expAct, expActor))
 		}
 		if isUser {
 			// scope-dependent claims reflect the decided scopes
@@ -1430,7 +1558,7 @@ func (w *world) judgeSuccess(res *vkit.Result, resp *vkit.Resp, effective, expSu
 var prop = vkit.Prop[Case]{
 	ID: "C15",
 	Rule: "cases = subject token and optional actor token, each minted through the real code flow (opaque / JWT access token, refresh token, ID token; own or other client; user u1-u3) and then left live or expired / revoked / rotated / issued by a foreign provider / re-signed / wrong issuer / alg none / tampered, or a storage-vouched third-party token, or garbage " +
-		"x declared type (matching, other supported, unsupported, absent) x requested type (absent, access, refresh, id, jwt, unsupported) x scope / audience / resource lists x storage policy (default type when requested_token_type is absent: access / refresh / id / none = left unset, impersonation, dropped scopes, veto, third-party verifier, access-token liveness check on / off) x client auth method x credential presentation (right, secret by the other channel, wrong secret, none, unknown client, forged assertion, malformed Basic header) x client grants x issued access token format x signing key x router, drawn in three modes (every premise true / exactly one broken / free); " +
+		"x declared type (matching, other supported, unsupported, absent) x requested type (absent, access, refresh, id, jwt, unsupported) x scope / audience / resource lists x storage policy (default type when requested_token_type is absent: access / refresh / id / none = left unset, impersonation, dropped scopes, veto, third-party verifier vouching in both roles / as subject only / as actor only, access-token liveness check on / off, the act claim the storage publishes: {sub: actor token subject} / pseudonymous actor id / nested chain through a gateway / further members / never any / also without an actor token - every JWT handed out (JWT access token, ID token, companion of a refresh token) must carry exactly the act the storage supplied, absent when it supplied none) x the actor token being the very string presented as subject token (declared as what it is / as the subject declares it / as another supported type / unsupported / absent; a third-party token vouched in one role only) x client auth method x credential presentation (right, secret by the other channel, wrong secret, none, unknown client, forged assertion, malformed Basic header) x client grants x issued access token format x signing key x router, drawn in three modes (every premise true / exactly one broken / free); " +
 		"half of the cases add the provider's life around the exchange: a provider whose issuer is derived from the Host header serving two hosts (tokens obtained on one host presented on the other: a JWT / ID token of the other host's issuer is a foreign token = must-reject, issuer-less opaque / refresh tokens of the other host are grey) and / or 1-3 further exchanges on the SAME provider, each on a generated host, each preceded by a generated key change of the storage (rotation with the old public keys kept / all withdrawn under a new or the same kid, withdrawal of the older keys), presenting tokens minted before any of the earlier exchanges or the very subject token of an earlier exchange again; every exchange is judged by the same model against the keys the storage serves and the store's records AT THAT TIME: a JWT signed by a key the storage has withdrawn is not a live, verifiable token of the provider = invalid subject / actor token = must-reject, one signed by an older key that is still published stays valid; " +
 		"non-trivial = the request passes client authentication so the exchange logic decides; distinct = (router, auth method, credential, subject kind/state/declared, actor kind/state/declared, requested, default, format, impersonation, veto, verifier, outcome)",
 	Gen: genCase,
